@@ -426,6 +426,16 @@ pub fn parse_cache_if_attribute(nv: &MetaNameValue) -> Result<syn::Path, TokenSt
 
 /// Parse common attributes shared between async and sync caches
 /// Returns true if the attribute was recognized and processed
+/// The per-attribute parsers report an invalid value as an embedded `compile_error!`
+/// invocation; such a value must fail the whole attribute list (a later repetition of the
+/// same attribute would otherwise overwrite it and hide the error).
+fn is_compile_error(tokens: &TokenStream2) -> bool {
+    matches!(
+        tokens.clone().into_iter().next(),
+        Some(proc_macro2::TokenTree::Ident(ident)) if ident == "compile_error"
+    )
+}
+
 fn parse_common_attribute(
     nv: &MetaNameValue,
     custom_name: &mut Option<String>,
@@ -442,6 +452,9 @@ fn parse_common_attribute(
         Ok(true)
     } else if nv.path.is_ident("max_memory") {
         *max_memory = parse_max_memory_attribute(nv);
+        if is_compile_error(max_memory) {
+            return Err(max_memory.clone());
+        }
         Ok(true)
     } else if nv.path.is_ident("tags") {
         *tags = parse_string_array_attribute(nv)?;
@@ -460,6 +473,9 @@ fn parse_common_attribute(
         Ok(true)
     } else if nv.path.is_ident("frequency_weight") {
         *frequency_weight = parse_frequency_weight_attribute(nv);
+        if is_compile_error(frequency_weight) {
+            return Err(frequency_weight.clone());
+        }
         Ok(true)
     } else {
         Ok(false)
@@ -481,6 +497,9 @@ pub fn parse_async_attributes(attr: TokenStream2) -> Result<AsyncCacheAttributes
     for nv in parsed_args {
         if nv.path.is_ident("limit") {
             attrs.limit = parse_limit_attribute(&nv);
+            if is_compile_error(&attrs.limit) {
+                return Err(attrs.limit);
+            }
         } else if nv.path.is_ident("policy") {
             match parse_policy_attribute(&nv) {
                 Ok(policy_str) => attrs.policy = quote! { #policy_str },
@@ -488,6 +507,9 @@ pub fn parse_async_attributes(attr: TokenStream2) -> Result<AsyncCacheAttributes
             }
         } else if nv.path.is_ident("ttl") {
             attrs.ttl = parse_ttl_attribute(&nv);
+            if is_compile_error(&attrs.ttl) {
+                return Err(attrs.ttl);
+            }
         } else {
             // Try to parse as common attribute
             if !parse_common_attribute(
@@ -534,6 +556,9 @@ pub fn parse_sync_attributes(attr: TokenStream2) -> Result<SyncCacheAttributes, 
     for nv in parsed_args {
         if nv.path.is_ident("limit") {
             attrs.limit = parse_limit_attribute(&nv);
+            if is_compile_error(&attrs.limit) {
+                return Err(attrs.limit);
+            }
         } else if nv.path.is_ident("policy") {
             match parse_policy_attribute(&nv) {
                 Ok(policy_str) => {
@@ -559,6 +584,9 @@ pub fn parse_sync_attributes(attr: TokenStream2) -> Result<SyncCacheAttributes, 
             }
         } else if nv.path.is_ident("ttl") {
             attrs.ttl = parse_ttl_attribute(&nv);
+            if is_compile_error(&attrs.ttl) {
+                return Err(attrs.ttl);
+            }
         } else if nv.path.is_ident("scope") {
             match parse_scope_attribute(&nv) {
                 Ok(scope_str) => {
